@@ -26,6 +26,8 @@ import BW.Proofs.Rename
 import BW.Proofs.Determinism
 import BW.Proofs.ClauseOrder
 import BW.Proofs.PlannerCorollaries
+import BW.Proofs.Par
+import BW.Generated.ParFacts
 
 namespace BW.Props.C14
 open BW.Model BW.Spec BW.Proofs.Query BW.Proofs.Rename BW.Proofs.Determinism BW.Proofs.ClauseOrder
@@ -172,6 +174,37 @@ theorem planner_monotone {gs gs' : List QGraph} {F : Facts} (hF : BW.Proofs.Stor
     ∀ r ∈ out.rows, ∃ r' ∈ out'.rows, BW.Proofs.ClauseOrder.RowEq r r' :=
   BW.Proofs.Planner.planner_monotone hF hg hg' U U' lo c0 cs hsub hpc hpc' h0 out out' h h'
 
+/-! ### Scheduling: the goroutines of the per-row join -/
+
+/-- Regenerated obligation (`parfacts`, go/ast): the goroutines `specifyClauseWithTable` starts — one per row —
+    touch the shared table only through `Table.AddBindings` and `Table.AddRow`, both of which hold the table's
+    mutex for their whole body; they assign to no field of the plan; each works on its own copy of the clause and
+    of the row. -/
+theorem per_row_goroutines_share_only_the_locked_table :
+    BW.Generated.addRowLocked = true ∧ BW.Generated.addBindingsLocked = true ∧
+    BW.Generated.perRowTableUses.all (fun m => m == "AddBindings" || m == "AddRow") = true ∧
+    BW.Generated.perRowWritesPlan = false ∧ BW.Generated.perRowOwnCopies = true := by decide
+
+/-- The per-row join does not depend on the schedule: whatever the interleaving of the goroutines' atomic
+    `AddRow` calls (small-step model: any thread that still has rows appends its next one), once all are done the
+    table holds a permutation of the rows the sequential loop of the planner model adds — the rows for row 1,
+    then for row 2, … — after those it held before. (Order is not promised without ORDER BY: C12.) -/
+theorem per_row_join_schedule_independent {α : Type} (tbl0 : List α) (threads : List (List α)) (tbl : List α)
+    (rest : List (List α)) (h : BW.Proofs.Par.Run (tbl0, threads) (tbl, rest)) (hd : BW.Proofs.Par.Done (tbl, rest)) :
+    tbl.Perm (tbl0 ++ threads.flatten) :=
+  BW.Proofs.Par.schedule_independent tbl0 threads tbl rest h hd
+
+/-- … and no schedule gets stuck before every row has been added. -/
+theorem per_row_join_progress {α : Type} (tbl : List α) (ls : List (List α)) (h : ¬ BW.Proofs.Par.Done (tbl, ls)) :
+    ∃ t, BW.Proofs.Par.Step (tbl, ls) t :=
+  BW.Proofs.Par.can_step tbl ls h
+
+/-- Non-vacuity: two threads, the second one's row added first. -/
+example : BW.Proofs.Par.Run (([] : List Nat), [[1, 2], [3]]) ([3, 1, 2], [[], []]) :=
+  .step (BW.Proofs.Par.Step.add [] [[1, 2]] 3 [] []) <|
+  .step (BW.Proofs.Par.Step.add [3] [] 1 [2] [[]]) <|
+  .step (BW.Proofs.Par.Step.add [3, 1] [] 2 [] [[]]) <| .refl _
+
 end BW.Props.C14
 
 #print axioms BW.Props.C14.partition_invariant
@@ -189,3 +222,6 @@ end BW.Props.C14
 #print axioms BW.Props.C14.planner_clause_order_invariant
 #print axioms BW.Props.C14.planner_partition_invariant
 #print axioms BW.Props.C14.planner_monotone
+#print axioms BW.Props.C14.per_row_goroutines_share_only_the_locked_table
+#print axioms BW.Props.C14.per_row_join_schedule_independent
+#print axioms BW.Props.C14.per_row_join_progress
